@@ -39,7 +39,7 @@ func (c07Stream) Rule() string {
 	return "one fault per scenario - a panicking handler for each concurrently dispatched operation (bind, search, modify, add, delete, extended), for StartTLS, for the unbind route and for the default route, requests of every operation nothing is registered for (refused by gldap itself, with a logger at trace level), 512 handlers on eight connections panicking in the same instant, and for a bind on a TLS listener that requests but does not verify client certificates; a connection reset; a truncated frame followed by silence; a client that sends searches with large results and never reads, also one whose requests are served by the default route; descriptor exhaustion at accept (RLIMIT_NOFILE lowered in the worker); 48 connections whose read loops end on a malformed frame while a slow request of theirs is still being handled, with 48 new connections arriving at once; a client of a TLS listener that sends a truncated first record and stalls; a frame of 2^20 nested indefinite-length sequence headers (goroutine stack limit lowered to 32 MiB in the worker) - injected while two bystander connections issue requests continuously; oracle: the worker process survives, the bystanders keep receiving correct responses during and after the fault, and a new connection is accepted and served afterwards; non-trivial = every scenario, distinct by fault"
 }
 
-var c07Faults = []string{"panic-jsonlog", "unrouted", "panic-storm", "panic-bind", "panic-search", "panic-modify", "panic-add", "panic-delete", "panic-extended", "panic-starttls", "panic-unbind", "panic-default", "rst", "truncated", "notreading", "notreading-default", "panic-anycert", "fdexhaust", "deepnest", "latewriter", "tlsstall"}
+var c07Faults = []string{"odd-dn", "nulls", "panic-jsonlog", "unrouted", "panic-storm", "panic-bind", "panic-search", "panic-modify", "panic-add", "panic-delete", "panic-extended", "panic-starttls", "panic-unbind", "panic-default", "rst", "truncated", "notreading", "notreading-default", "panic-anycert", "fdexhaust", "deepnest", "latewriter", "tlsstall"}
 
 func (c07Stream) Generate(rng *rand.Rand, n int, thorough bool) []Case {
 	var cs []Case
@@ -114,6 +114,8 @@ func (c07Stream) Impl(c Case) string {
 	}
 	mux, _ := gldap.NewMux()
 	_ = mux.Bind(h)
+	// (a search route with a base DN criterion in front: every search is compared with it first)
+	_ = mux.Search(h, gldap.WithBaseDN("ou=special,dc=example,dc=org"))
 	_ = mux.Search(h)
 	if fault != "unrouted" {
 		_ = mux.Modify(h)
@@ -284,6 +286,28 @@ func (c07Stream) Impl(c Case) string {
 				break
 			}
 		}
+	case fault == "odd-dn":
+		// searches whose base DNs are unusual but legitimate (escaped commas, hex pairs, a bare RDN, an AD <SID=...> form,
+		// the empty DN) or plain nonsense; their handler may even panic - the others' searches go on being answered
+		for j, dn := range []string{"cn=Smith\\, John,ou=people,dc=example,dc=org", "cn=a\\2cb,dc=example", "cn", "=", ",,,", "", "<SID=S-1-5-21-1-2-3>", "cn=x+sn=y,dc=example", "ou=special,dc=example,dc=org ", "  ", "cn=\\", strings.Repeat("dc=x,", 300) + "dc=y"} {
+			r := Req{Kind: "search", ID: int64(800 + j), DN: dn, Scope: 2, Filter: "(cn=x)"}
+			nd, _ := r.Node()
+			_ = victim.send(nd.Ser())
+			if _, err := victim.readFrame(2 * time.Second); err != nil {
+				// (a connection that ended is this property's business only through what it does to the others)
+				victim.close()
+				if victim, err = dialRaw(sut.addr, victimCfg); err != nil {
+					break
+				}
+			}
+		}
+	case fault == "nulls":
+		// a stream of empty NULL / end-of-contents elements where LDAPMessages belong (goroutine stack limit lowered so
+		// that a reader that recurses once per element shows with half a megabyte)
+		debug.SetMaxStack(32 << 20)
+		_ = victim.send(bytes.Repeat([]byte{0x05, 0x00}, 1<<19))
+		_ = victim.send(bytes.Repeat([]byte{0x00, 0x00}, 1<<19))
+		time.Sleep(300 * time.Millisecond)
 	case fault == "rst":
 		_ = victim.send(opFrame("bind", 1))
 		if tc, ok := victim.c.(*net.TCPConn); ok {
